@@ -31,6 +31,7 @@ func init() {
 			{ID: "C14.R7", Floor: 2, Run: idsNotFabricated, Text: "component ids in per-column loops come from the table's id list (= C01.R13): zeroing by buffer position clears the wrong columns"},
 			{ID: "C14.R8", Floor: 1, Run: typeListedForItsID, Text: "a column's type is the registry's type for its id: in every componentType{ID, Type} literal Type is registry.Types[ID.id]"},
 			{ID: "C14.R9", Floor: 1, Run: offsetsInPointerWidth, Text: "storage offsets are computed in pointer width (= C01.R18)"},
+			{ID: "C14.R10", Floor: 4, Run: registryKeyIsParam, Text: "the registry is keyed by the type as given (= C16.R15): two types never share a column whose pointer layout was taken from one of them"},
 		},
 	})
 }
